@@ -367,6 +367,10 @@ func (vc *VC) assumeWellFormedAt(st *State, v Val, bound string) {
 			if strings.HasSuffix(l.Path, "#rv.mt") {
 				vc.assume(st.cond, app("bvule", v.L[k], bvLit(64, 0xFFFF)))
 			}
+			if strings.HasSuffix(l.Path, "#rv.obj") {
+				// the object behind a Value is an existing heap object or the box of a plain value (ids >= 2^47)
+				vc.assume(st.cond, or(app("bvult", v.L[k], bound), app("bvuge", v.L[k], bvLit(64, 1<<47))))
+			}
 			if strings.HasSuffix(l.Path, "#t.ns") {
 				vc.assume(st.cond, and(app("bvsle", bvLit(64, 0), v.L[k]), app("bvslt", v.L[k], bvLit(64, 1000000000))))
 			}
